@@ -144,10 +144,15 @@ def build_network(start, var, cls=RecordingNetwork):
     elif var.constraints == "3ph":
         cons = [(Current({sid(s): (1 if s % 2 else -1) for s in range(1, ns + 1)}), 30.0, "mixed"),
                 (Current([sid(ns)]), 500.0, "slack")]
+    elif var.constraints == "removed":
+        # every constraint has been removed again: the matrix is an empty (0, n) array, not None
+        cons = [(Current([sid(1)]), 20.0, "gone")]
     if var.con_perm:
         cons = cons[::-1]
     for cur, lim, name in cons:
         net.add_constraint(cur, lim, name=name)
+    if var.constraints == "removed":
+        net.remove_constraint("gone")
     return net
 
 
